@@ -56,12 +56,12 @@ func (w *c05world) handler(rw http.ResponseWriter, q *http.Request, rec *rig.Ori
 		rw.WriteHeader(599)
 		return
 	}
-	rec.Note = id
+	rec.SetNote(id)
 	res.arrOnce.Do(func() { close(res.arrived) })
 	select {
 	case <-res.gate:
 	case <-time.After(20 * time.Second):
-		rec.Note += ";gate-timeout"
+		rec.AppendNote(";gate-timeout")
 	}
 	w.mu.Lock()
 	ver, noStore := res.ver, res.noStore
